@@ -651,7 +651,21 @@ func (e *e3) escapePoints(v ssa.Value) []ssa.Instruction {
 			switch x := ref.(type) {
 			case *ssa.Phi, *ssa.BinOp, *ssa.Slice, *ssa.Convert, *ssa.ChangeType, *ssa.ChangeInterface, *ssa.MakeInterface, *ssa.Extract, *ssa.Field, *ssa.Index, *ssa.Lookup, *ssa.TypeAssert, *ssa.Range, *ssa.Next, *ssa.IndexAddr, *ssa.FieldAddr:
 				if bo, isB := x.(*ssa.BinOp); isB && bo.Op != token.ADD {
-					continue // comparisons produce no text
+					// a comparison produces no text, but its outcome steers what is written: the published
+					// bytes then depend on the person's text (implicit flow) - the comparison itself is an
+					// escape point and must be protected like a write
+					switch bo.Op {
+					case token.EQL, token.NEQ, token.LSS, token.LEQ, token.GTR, token.GEQ:
+						if bt, isBasic := bo.X.Type().Underlying().(*types.Basic); !isBasic || bt.Info()&types.IsString == 0 {
+							break // only comparisons of text; counters are decided by their own rule
+						}
+						if k, isK := bo.Y.(*ssa.Const); !isK || k.Value != nil {
+							if k2, isK2 := bo.X.(*ssa.Const); !isK2 || k2.Value != nil {
+								out = append(out, bo)
+							}
+						}
+					}
+					continue
 				}
 				follow(x.(ssa.Value))
 			case *ssa.UnOp:
@@ -873,7 +887,21 @@ func (e *e3) flowProtected(v ssa.Value, guard func(ssa.Instruction) bool) (bool,
 				}
 			case *ssa.BinOp, *ssa.Slice, *ssa.Convert, *ssa.ChangeType, *ssa.ChangeInterface, *ssa.MakeInterface, *ssa.Extract, *ssa.Field, *ssa.Index, *ssa.Lookup, *ssa.TypeAssert, *ssa.Range, *ssa.Next, *ssa.IndexAddr, *ssa.FieldAddr:
 				if bo, isB := x.(*ssa.BinOp); isB && bo.Op != token.ADD {
-					continue // comparisons produce no text
+					// a comparison produces no text, but its outcome steers what is written: the published
+					// bytes then depend on the person's text (implicit flow) - the comparison itself is an
+					// escape point and must be protected like a write
+					switch bo.Op {
+					case token.EQL, token.NEQ, token.LSS, token.LEQ, token.GTR, token.GEQ:
+						if bt, isBasic := bo.X.Type().Underlying().(*types.Basic); !isBasic || bt.Info()&types.IsString == 0 {
+							break // only comparisons of text; counters are decided by their own rule
+						}
+						if k, isK := bo.Y.(*ssa.Const); !isK || k.Value != nil {
+							if k2, isK2 := bo.X.(*ssa.Const); !isK2 || k2.Value != nil {
+								esc(bo)
+							}
+						}
+					}
+					continue
 				}
 				if !follow(x.(ssa.Value)) {
 					ok = false
@@ -1796,6 +1824,9 @@ func C17(p *load.Prog, r *oblig.Run) {
 		}
 		sinks := reaching[label(s)]
 		if len(sinks) == 0 {
+			if os.Getenv("C17_STEER") != "" {
+				fmt.Println("STEER", key, p.Pos(s.Pos()), why)
+			}
 			o.OK("not protected (" + why + ") but its result does not reach any page, link or file name (it only steers control)")
 			continue
 		}
